@@ -1,9 +1,339 @@
-//! C03: not built yet.
-use crate::out::Out;
-use serde_json::Value;
+//! C03: `AbstractDomain::merge` and `merge_with` of BitvectorDomain, IntervalDomain (with widening),
+//! DataDomain<IntervalDomain>, Taint, DomainMap under the three merge strategies, MemRegion.
+//! One event per pair: {ev:"merge", dom:"val"|"map"|"region", vk, strategy, x, y}
+//!   -> m = x.merge(y), mxx = x.merge(x), m2 = m.merge(y), m3 = m.merge(x) and wm, wmxx, wm2, wm3 (the
+//!      same through merge_with), panic.
+//! The harness records; T_C03.tla decides (Upper / Idem / Absorb on gamma).
+use crate::domenc::*;
+use crate::ivgen::*;
+use crate::out::{catch, Out};
+use crate::rng::Rng;
+use cwe_checker_lib::abstract_domain::*;
+use cwe_checker_lib::analysis::taint::Taint;
+use cwe_checker_lib::intermediate_representation::*;
+use serde_json::{json, Value};
+use std::collections::BTreeMap;
+use std::panic::AssertUnwindSafe;
 
-pub fn gen(_out: &mut Out, _sub: &str) {}
+/// A value domain that can be projected to / rebuilt from the tagged JSON encoding.
+pub trait Val: AbstractDomain + SizedDomain + HasTop + Clone + std::fmt::Debug {
+    const K: &'static str;
+    fn enc(&self) -> Value;
+    fn dec(v: &Value) -> Self;
+}
+impl Val for IntervalDomain {
+    const K: &'static str = "iv";
+    fn enc(&self) -> Value { json!({"k": "iv", "iv": iv(self)}) }
+    fn dec(v: &Value) -> Self { iv_from_json(&v["iv"]) }
+}
+impl Val for BitvectorDomain {
+    const K: &'static str = "bvd";
+    fn enc(&self) -> Value { json!({"k": "bvd", "bvd": bvd(self)}) }
+    fn dec(v: &Value) -> Self { bvd_from_json(&v["bvd"]) }
+}
+impl Val for Data {
+    const K: &'static str = "dd";
+    fn enc(&self) -> Value { json!({"k": "dd", "dd": dd(self)}) }
+    fn dec(v: &Value) -> Self { dd_from_json(&v["dd"]) }
+}
+impl Val for Taint {
+    const K: &'static str = "taint";
+    fn enc(&self) -> Value { json!({"k": "taint", "taint": taint(self)}) }
+    fn dec(v: &Value) -> Self { taint_from_json(&v["taint"]) }
+}
 
-pub fn replay(_run: &[Value], _sub: &str) -> Vec<Value> {
-    Vec::new()
+/// The eight merges of one event, on any abstract domain.
+fn merges<T: AbstractDomain + Clone>(x: &T, y: &T, enc: &dyn Fn(&T) -> Value, ev: &mut serde_json::Map<String, Value>) {
+    let r = catch(AssertUnwindSafe(|| {
+        let m = x.merge(y);
+        let mxx = x.merge(x);
+        let m2 = m.merge(y);
+        let m3 = m.merge(x);
+        let with = |a: &T, b: &T| { let mut t = a.clone(); t.merge_with(b); t };
+        let wm = with(x, y);
+        let wmxx = with(x, x);
+        let wm2 = with(&wm, y);
+        let wm3 = with(&wm, x);
+        [m, mxx, m2, m3, wm, wmxx, wm2, wm3]
+    }));
+    let names = ["m", "mxx", "m2", "m3", "wm", "wmxx", "wm2", "wm3"];
+    match r {
+        Ok(vals) => {
+            for (n, v) in names.iter().zip(vals.iter()) { ev.insert(n.to_string(), enc(v)); }
+            ev.insert("panic".into(), json!(""));
+        }
+        Err(p) => {
+            for n in names { ev.insert(n.to_string(), enc(x)); }
+            ev.insert("panic".into(), json!(if p.is_empty() { "panic".to_string() } else { p }));
+        }
+    }
+}
+
+fn base(dom: &str, vk: &str, strategy: &str, x: Value, y: Value) -> serde_json::Map<String, Value> {
+    let mut ev = serde_json::Map::new();
+    ev.insert("ev".into(), json!("merge"));
+    ev.insert("dom".into(), json!(dom));
+    ev.insert("vk".into(), json!(vk));
+    ev.insert("strategy".into(), json!(strategy));
+    ev.insert("x".into(), x);
+    ev.insert("y".into(), y);
+    ev
+}
+
+fn scalar_event<V: Val>(x: &V, y: &V) -> Value {
+    let mut ev = base("val", V::K, "", x.enc(), y.enc());
+    merges(x, y, &|v: &V| v.enc(), &mut ev);
+    Value::Object(ev)
+}
+
+type M<V> = BTreeMap<String, V>;
+fn enc_map<V: Val>(m: &M<V>) -> Value {
+    Value::Array(m.iter().map(|(k, v)| json!({"key": k, "v": v.enc()})).collect())
+}
+fn dec_map<V: Val>(v: &Value) -> M<V> {
+    v.as_array().unwrap().iter().map(|e| (e["key"].as_str().unwrap().to_string(), V::dec(&e["v"]))).collect()
+}
+fn map_event_s<V: Val, S: MapMergeStrategy<String, V> + Clone + Eq>(strategy: &str, x: &M<V>, y: &M<V>) -> Value {
+    let dx: DomainMap<String, V, S> = x.clone().into();
+    let dy: DomainMap<String, V, S> = y.clone().into();
+    let mut ev = base("map", V::K, strategy, enc_map(x), enc_map(y));
+    merges(&dx, &dy, &|m: &DomainMap<String, V, S>| enc_map(&**m), &mut ev);
+    Value::Object(ev)
+}
+fn map_event<V: Val>(strategy: &str, x: &M<V>, y: &M<V>) -> Value {
+    match strategy {
+        "union" => map_event_s::<V, UnionMergeStrategy>(strategy, x, y),
+        "intersect" => map_event_s::<V, IntersectMergeStrategy>(strategy, x, y),
+        _ => map_event_s::<V, MergeTopStrategy>(strategy, x, y),
+    }
+}
+
+type Cells<V> = Vec<(i64, V)>;
+fn build_region<V: Val>(cells: &Cells<V>) -> MemRegion<V> {
+    let mut r = MemRegion::new(ByteSize::new(8));
+    for (off, v) in cells { r.insert_at_byte_index(v.clone(), *off); }
+    r
+}
+fn enc_region<V: Val>(r: &MemRegion<V>) -> Value {
+    Value::Array(r.iter().map(|(off, v)| json!({"off": off, "size": u64::from(v.bytesize()), "v": v.enc()})).collect())
+}
+fn dec_cells<V: Val>(v: &Value) -> Cells<V> {
+    v.as_array().unwrap().iter().map(|c| (c["off"].as_i64().unwrap(), V::dec(&c["v"]))).collect()
+}
+fn region_event<V: Val>(x: &MemRegion<V>, y: &MemRegion<V>) -> Value {
+    let mut ev = base("region", V::K, "", enc_region(x), enc_region(y));
+    merges(x, y, &|r: &MemRegion<V>| enc_region(r), &mut ev);
+    Value::Object(ev)
+}
+
+/// Re-execute one recorded event's inputs on the real code.
+pub fn exec(input: &Value) -> Value {
+    fn go<V: Val>(input: &Value) -> Value {
+        match input["dom"].as_str().unwrap() {
+            "val" => scalar_event(&V::dec(&input["x"]), &V::dec(&input["y"])),
+            "map" => map_event::<V>(input["strategy"].as_str().unwrap(), &dec_map(&input["x"]), &dec_map(&input["y"])),
+            _ => region_event(&build_region::<V>(&dec_cells(&input["x"])), &build_region::<V>(&dec_cells(&input["y"]))),
+        }
+    }
+    match input["vk"].as_str().unwrap() {
+        "iv" => go::<IntervalDomain>(input),
+        "bvd" => go::<BitvectorDomain>(input),
+        "dd" => go::<Data>(input),
+        _ => go::<Taint>(input),
+    }
+}
+
+pub fn replay(run: &[Value], _sub: &str) -> Vec<Value> {
+    run.iter().map(exec).collect()
+}
+
+fn push(out: &mut Out, ev: Value) {
+    // rule: the merge is a third value (differs from both inputs)
+    let nt = ev["panic"] == "" && ev["m"] != ev["x"] && ev["m"] != ev["y"];
+    out.emit(vec![ev], nt);
+}
+
+// ---- generators of input values -----------------------------------------------------------------
+const HINT_PCT: u64 = 45;
+
+/// A partner for x as it arises in a loop: same start or end, grown by a few strides, hints kept or not.
+fn loop_partner(rng: &mut Rng, x: &RawIv, w: u64) -> RawIv {
+    let (mn, mx) = (smin(w), smax(w));
+    let (s, e) = (to_i128(&x.start), to_i128(&x.end));
+    let st = x.stride.max(*rng.pick(&[1u64, 1, 2, 4])) as i128;
+    let grow = |rng: &mut Rng| st * rng.range(0, 3) as i128 + if rng.chance(1, 5) { rng.range(0, 2) as i128 } else { 0 };
+    let (s2, e2) = match rng.below(4) {
+        0 => (s, e + grow(rng)),
+        1 => (s - grow(rng), e),
+        2 => (s + grow(rng), e + grow(rng)),
+        _ => (s - grow(rng), e + grow(rng)),
+    };
+    let (s2, e2) = (s2.clamp(mn, mx), e2.clamp(mn, mx));
+    let (s2, e2) = if s2 <= e2 { (s2, e2) } else { (e2, s2) };
+    let stride = if s2 == e2 { 0 } else if rng.chance(2, 3) { x.stride.max(1) } else { 1 };
+    // end on the stride
+    let e2 = if stride > 0 { s2 + (e2 - s2) / stride as i128 * stride as i128 } else { e2 };
+    let stride = if s2 == e2 { 0 } else { stride };
+    let (lo, hi, delay) = rand_hints(rng, w, s2, e2, stride, 60);
+    let mut r = raw(s2, e2, stride, w);
+    // keep x's hints when they are still outside
+    r.lo = match &x.lo { Some(b) if rng.chance(1, 2) && to_i128(b) < s2 => Some(b.clone()), _ => lo.map(|v| bvs(v, w)) };
+    r.hi = match &x.hi { Some(b) if rng.chance(1, 2) && to_i128(b) > e2 => Some(b.clone()), _ => hi.map(|v| bvs(v, w)) };
+    r.delay = if rng.chance(1, 2) { x.delay } else { delay };
+    r
+}
+
+fn rand_iv_pair(rng: &mut Rng, w: u64) -> (IntervalDomain, IntervalDomain) {
+    let x = rand_raw(rng, w, HINT_PCT);
+    let y = match rng.below(10) {
+        0..=4 => loop_partner(rng, &x, w),
+        5 => x.clone(),
+        _ => rand_raw(rng, w, HINT_PCT),
+    };
+    if rng.chance(1, 2) { (x.build(), y.build()) } else { (y.build(), x.build()) }
+}
+
+fn rand_bvd(rng: &mut Rng, w: u64) -> BitvectorDomain {
+    if rng.chance(1, 4) { BitvectorDomain::Top(ByteSize::new(w)) } else { BitvectorDomain::Value(bvs(*rng.pick(&[0i128, 1, -1, 5, 127, -128]), w)) }
+}
+fn rand_taint(rng: &mut Rng, w: u64) -> Taint {
+    if rng.chance(1, 2) { Taint::Tainted(ByteSize::new(w)) } else { Taint::Top(ByteSize::new(w)) }
+}
+/// second data value: related to the first (same ids, nearby intervals) half of the time
+fn rand_data_pair(rng: &mut Rng, w: u64) -> (Data, Data) {
+    let x = rand_data(rng, w, HINT_PCT);
+    if rng.chance(1, 2) {
+        return (x, rand_data(rng, w, HINT_PCT));
+    }
+    let mut y = x.clone();
+    let mut rel = BTreeMap::new();
+    for (i, off) in x.get_relative_values() {
+        if rng.chance(3, 4) { rel.insert(i.clone(), loop_partner(rng, &RawIv::of(off), w).build()); }
+    }
+    if rng.chance(1, 3) { rel.insert(id(*rng.pick(&IDS)), rand_raw(rng, w, HINT_PCT).build()); }
+    y.set_relative_values(rel);
+    y.set_absolute_value(match x.get_absolute_value() {
+        Some(a) if rng.chance(3, 4) => Some(loop_partner(rng, &RawIv::of(a), w).build()),
+        _ => if rng.chance(1, 2) { Some(rand_raw(rng, w, HINT_PCT).build()) } else { None },
+    });
+    if rng.chance(1, 4) { y.set_contains_top_flag(); } else if rng.chance(1, 4) { y.unset_contains_top_flag(); }
+    if rng.chance(1, 2) { (x, y) } else { (y, x) }
+}
+
+trait Gen: Val {
+    fn pair(rng: &mut Rng, w: u64) -> (Self, Self);
+    /// one value, possibly the Top element
+    fn one(rng: &mut Rng, w: u64) -> Self { Self::pair(rng, w).0 }
+}
+impl Gen for IntervalDomain { fn pair(rng: &mut Rng, w: u64) -> (Self, Self) { rand_iv_pair(rng, w) } }
+impl Gen for BitvectorDomain { fn pair(rng: &mut Rng, w: u64) -> (Self, Self) { let a = rand_bvd(rng, w); let b = if rng.chance(1, 3) { a.clone() } else { rand_bvd(rng, w) }; (a, b) } }
+impl Gen for Data { fn pair(rng: &mut Rng, w: u64) -> (Self, Self) { rand_data_pair(rng, w) } }
+impl Gen for Taint { fn pair(rng: &mut Rng, w: u64) -> (Self, Self) { (rand_taint(rng, w), rand_taint(rng, w)) } }
+
+const KEYS: [&str; 4] = ["k0", "k1", "k2", "k3"];
+fn rand_maps<V: Gen>(rng: &mut Rng, w: u64) -> (M<V>, M<V>) {
+    let (mut x, mut y) = (M::new(), M::new());
+    for k in KEYS {
+        let (a, b) = V::pair(rng, w);
+        // explicit Top elements as map values, too
+        let a = if rng.chance(1, 8) { a.top() } else { a };
+        match rng.below(8) {
+            0 => {}
+            1 | 2 => { x.insert(k.to_string(), a); }
+            3 | 4 => { y.insert(k.to_string(), b); }
+            _ => { x.insert(k.to_string(), a); y.insert(k.to_string(), b); }
+        }
+    }
+    (x, y)
+}
+
+/// Two regions over the offset window -8..20 with cell sizes 1/2/4/8; the second shares part of the
+/// layout of the first (same cell, other value / other size / shifted / missing / extra cells).
+fn rand_regions<V: Gen>(rng: &mut Rng) -> (MemRegion<V>, MemRegion<V>) {
+    let mut xc: Cells<V> = Vec::new();
+    let mut yc: Cells<V> = Vec::new();
+    let mut off: i64 = -8 + rng.range(0, 3);
+    while off < 20 {
+        let size = *rng.pick(&[1u64, 1, 1, 2, 4, 8]);
+        let (a, b) = V::pair(rng, size);
+        xc.push((off, a.clone()));
+        match rng.below(10) {
+            0..=4 => yc.push((off, b)),
+            5 => yc.push((off, a)),
+            6 => {}
+            7 => { let s2 = *rng.pick(&[1u64, 2, 4, 8]); yc.push((off, V::one(rng, s2))) }
+            8 => yc.push((off + rng.range(-2, 2), b)),
+            _ => { yc.push((off, b)); let s2 = *rng.pick(&[1u64, 2]); yc.push((off + size as i64 + rng.range(0, 1), V::one(rng, s2))) }
+        }
+        off += size as i64 + *rng.pick(&[0i64, 0, 0, 1, 2, 5]);
+    }
+    if rng.chance(1, 10) { yc.clear(); }
+    let (x, y) = (build_region(&xc), build_region(&yc));
+    if rng.chance(1, 2) { (x, y) } else { (y, x) }
+}
+
+pub fn gen(out: &mut Out, _sub: &str) {
+    let mut rng = Rng::new(out.seed ^ 0xC03);
+    // ---- scalar domains -----------------------------------------------------------------------
+    for _ in 0..out.size(2500, 25000) {
+        let (x, y) = rand_iv_pair(&mut rng, 1);
+        push(out, scalar_event(&x, &y));
+    }
+    for w in [2u64, 4, 8] {
+        for _ in 0..out.size(100, 800) {
+            let (x, y) = rand_iv_pair(&mut rng, w);
+            push(out, scalar_event(&x, &y));
+        }
+    }
+    for w in [1u64, 4, 8] {
+        for _ in 0..out.size(30, 200) {
+            let (x, y) = BitvectorDomain::pair(&mut rng, w);
+            push(out, scalar_event(&x, &y));
+        }
+        for t in [(true, true), (true, false), (false, true), (false, false)] {
+            let mk = |b: bool| if b { Taint::Tainted(ByteSize::new(w)) } else { Taint::Top(ByteSize::new(w)) };
+            push(out, scalar_event(&mk(t.0), &mk(t.1)));
+        }
+    }
+    for _ in 0..out.size(700, 6000) {
+        let (x, y) = rand_data_pair(&mut rng, 1);
+        push(out, scalar_event(&x, &y));
+    }
+    for _ in 0..out.size(60, 500) {
+        let (x, y) = rand_data_pair(&mut rng, 8);
+        push(out, scalar_event(&x, &y));
+    }
+    // ---- maps under the three strategies ------------------------------------------------------
+    for strategy in ["union", "intersect", "mergetop"] {
+        for _ in 0..out.size(250, 2000) {
+            let (x, y) = rand_maps::<IntervalDomain>(&mut rng, 1);
+            push(out, map_event(strategy, &x, &y));
+        }
+        for _ in 0..out.size(60, 400) {
+            let (x, y) = rand_maps::<BitvectorDomain>(&mut rng, 8);
+            push(out, map_event(strategy, &x, &y));
+            let (x, y) = rand_maps::<Taint>(&mut rng, 8);
+            push(out, map_event(strategy, &x, &y));
+        }
+        // data domain values: Top is not the greatest element, the case MergeTop exists for (and
+        // the one IntersectMergeStrategy documents as outside its contract)
+        if strategy != "intersect" {
+            for _ in 0..out.size(80, 600) {
+                let w = *rng.pick(&[1u64, 1, 8]);
+                let (x, y) = rand_maps::<Data>(&mut rng, w);
+                push(out, map_event(strategy, &x, &y));
+            }
+        }
+    }
+    // ---- memory regions ----------------------------------------------------------------------
+    for _ in 0..out.size(70, 500) {
+        let (x, y) = rand_regions::<IntervalDomain>(&mut rng);
+        push(out, region_event(&x, &y));
+        let (x, y) = rand_regions::<Data>(&mut rng);
+        push(out, region_event(&x, &y));
+    }
+    for _ in 0..out.size(40, 300) {
+        let (x, y) = rand_regions::<BitvectorDomain>(&mut rng);
+        push(out, region_event(&x, &y));
+    }
 }
